@@ -198,7 +198,58 @@ def indep_task(task):
             r = 'raise:' + type(e).__name__
         mod = (cache != c0) or (dict(contracts) != k0) or ({k: list(v) for k, v in plugins.items()} != p0)
         return r, mod
+    class Answer:
+        def __init__(self, v): self.v = v
+        def abi(self, args): return [self.v]
+    FORMS = ['%s', '!= m [ ] { %s } !m [ ]', '!= m [ a ] { push a %s } !m [ x01 ]', 'def 0 { %s } call d0', 'true if { %s }', 'push ~ { %s }',
+             '!= m [ ] { push ~ { %s } } !m [ ]']
+
+    def registry_dependent_compiles():
+        # "an entry is used by subsequent executions (and compilations) iff it is active": the same source text compiled on both
+        # sides of a change of the alias / contract registry — plainly, through a macro, inside blocks and comptime blocks
+        saved_al, saved_ct = dict(F.opcode_aliases), dict(F._contracts)
+        try:
+            alias = rng.choice(['VZA', 'VZB'])
+            form = rng.choice(FORMS)
+            via = rng.choice(['compile_script', 'assemble', 'Script.from_src'])
+            hist = []
+            for step in range(rng.randint(2, 4)):
+                target = rng.choice([None, 'OP_TRUE', 'OP_FALSE', 'OP_NOT'])
+                F.opcode_aliases.pop(alias, None)
+                if target:
+                    F.add_alias(alias, target)
+                hist.append('%s->%s' % (alias, target))
+                got = obs_compile(form % alias, via)
+                want = obs_compile(form % target, via) if target else None
+                stats['compile-after-registry-change'] += 1
+                if (want is None and not got.startswith('raise:')) or (want is not None and got != want):
+                    stats['direct-fail'] += 1
+                    if len(viol) < 8:
+                        viol.append(dict(what='alias history %s: %s(%r) gives %s, the registry says %s' %
+                                         (hist, via, form % alias, got[:80], want[:80] if want else 'not an op name: reject'), source=form % alias))
+            cid = bytes([rng.randrange(200, 256)])
+            src = rng.choice(['push ~! { push d0 push x%s invoke }', '!= k [ ] { push ~! { push d0 push x%s invoke } } !k [ ]']) % cid.hex()
+            hist = []
+            for step in range(rng.randint(2, 4)):
+                val = rng.choice([None, b'\x11', b'\x22\x33', b'\x44' * 5])
+                F._contracts.pop(cid, None)
+                if val is not None:
+                    F.add_contract(cid, Answer(val))
+                hist.append(val.hex() if val is not None else None)
+                got = obs_compile(src, via)
+                want = obs_compile('push x%s' % val.hex(), via) if val is not None else None
+                stats['compile-after-registry-change'] += 1
+                if (want is None and not got.startswith('raise:')) or (want is not None and got != want):
+                    stats['direct-fail'] += 1
+                    if len(viol) < 8:
+                        viol.append(dict(what='contract history %s under id %s: %s(%r) gives %s, the registry says %s' %
+                                         (hist, cid.hex(), via, src, got[:80], want[:80] if want else 'no such contract: reject'), source=src))
+        finally:
+            F.opcode_aliases.clear(); F.opcode_aliases.update(saved_al)
+            F._contracts.clear(); F._contracts.update(saved_ct)
     for it in range(n):
+        if it % 5 == 0:
+            registry_dependent_compiles()
         if rng.random() < 0.5:
             ga = asmstream.AstGen(rng, 2)
             srcA = asmstream.Speller(rng).prog(ga.prog())
